@@ -165,7 +165,8 @@ NTT_REQUIRED = {
             "cfg:odd_effective_phases", "cfg:nblock_clamped", "cfg:nphase_clamped", "cfg:size_below_object_domain", "cfg:size_one", "cfg:size_zero_noop",
             "cfg:zero_columns_noop", "cfg:identity_matrix_input", "cfg:boundary_input", "cfg:object_used_before", "hook:revperm:branch0", "hook:revperm:branch2",
             "hook:ntt_pass:writeback0", "hook:ntt_land:in_destination", "monitor:linearity_triples", "monitor:root_table_entries_checked",
-            "omp_shim:regions_with_permuted_member_order", "omp:real_libgomp_processes", "oracle:naive_dft_columns", "oracle:recursive_fft_columns", "threadlimit2:cfg:alias1"],
+            "omp_shim:regions_with_permuted_member_order", "omp:real_libgomp_processes", "oracle:naive_dft_columns", "oracle:recursive_fft_columns", "threadlimit2:cfg:alias1",
+            "family:callers_inside_an_OpenMP_team", "family:plain_thread_callers"],
     "C19": ["history:sequences", "history:extendPol_N_grows", "history:extendPol_N_shrinks", "history:large_then_small", "history:blocked_unblocked_switch",
             "history:two_objects_interleaved", "hook:extendPol:tables_recomputed", "hook:extendPol:tables_reused"] +
            ["history:pair:%s->%s" % (a, b) for a in ("NTT", "INTT", "extendPol") for b in ("NTT", "INTT", "extendPol")],
@@ -175,7 +176,7 @@ NTT_REQUIRED["C05"] = ["cfg:extendPol", "cfg:alias0", "cfg:alias1", "cfg:blocked
                        "cfg:odd_effective_phases", "cfg:extend_same_size", "cfg:extend_onsite_zero_padding", "cfg:size_one", "cfg:boundary_input", "cfg:object_used_before",
                        "hook:revperm:branch0", "hook:revperm:branch1", "hook:revperm:branch2", "hook:revperm:branch3", "hook:ntt_pass:writeback2",
                        "hook:computeR", "monitor:linearity_triples", "monitor:root_table_entries_checked", "omp_shim:regions_with_permuted_member_order",
-                       "omp:real_libgomp_processes", "threadlimit2:cfg:alias1"]
+                       "omp:real_libgomp_processes", "threadlimit2:cfg:alias1", "family:callers_inside_an_OpenMP_team", "family:plain_thread_callers"]
 
 
 def check_shim_symbols(binary):
@@ -253,7 +254,7 @@ POS_REQUIRED = {
                                      "merkletree_batch_avx512", "merkletree_batch")] +
            ["shape:one_row", "shape:zero_columns", "shape:row_passthrough(<=4 elements)", "shape:dim>1", "batch:even", "batch:ragged_last",
             "batch:larger_than_cols", "threads:default(0)", "threads:more_than_rows", "oracle:known_answers_checked", "tables:pinned_hash_checked",
-            "threadlimit2:builder:merkletree_seq", "threadlimit2:builder:merkletree_batch_avx512"],
+            "threadlimit2:builder:merkletree_seq", "threadlimit2:builder:merkletree_batch_avx512", "family:concurrent_callers"],
 }
 
 
